@@ -16,15 +16,23 @@ def cfgs(system, tier, weakly=False):
         out += [dict(system=system, N=3, M=4, pm="z3", weakly=weakly, layers=[0, 0, 0, 1])]
         out += [dict(system=system, N=2, M=2, pm="rc2", weakly=weakly, shapes=sh) for sh in ops.const_shape_configs(weakly)[:4]]
         out += [dict(system=system, N=2, M=2, pm="rc2", weakly=weakly, shapes=sh) for sh in ops.struct_shape_configs()[:2]]
+        # the same conditional listed twice under different keys (identical formula objects)
+        dup = {("A", 1): "same_as_0", ("B", 1): "same_as_0"}
+        out += [dict(system=system, N=2, M=3, pm=pm, weakly=weakly, shapes=dup) for pm in ("rc2", "z3")]
+        out += [dict(system=system, N=3, M=4, pm="z3", weakly=weakly, shapes=dup, layers=[0, 0, 0, 0])]
     else:
         out += [dict(system=system, N=2, M=M, pm="rc2", weakly=weakly) for M in (1, 2, 3)]
         out += [dict(system=system, N=3, M=3, pm="rc2", weakly=weakly)]
-        out += [dict(system=system, N=3, M=M, pm="z3", weakly=weakly) for M in (1, 2, 3, 4)]
-        out += [dict(system=system, N=3, M=4, pm="rc2", weakly=weakly, level="L2"),
-                dict(system=system, N=4, M=3, pm="rc2", weakly=weakly, level="L2")]
+        out += [dict(system=system, N=3, M=M, pm="z3", weakly=weakly) for M in (1, 2, 3)]
+        out += [dict(system=system, N=3, M=4, pm="rc2", weakly=weakly, level="L2")]
+        out += [dict(system=system, N=3, M=4, pm="z3", weakly=weakly, layers=ly) for ly in ([0, 1, 1, 1], [0, 0, 1, 1], [0, 0, 0, 1], [0, 1, 2, 2])]
+        out += [dict(system=system, N=3, M=4, pm="rc2", weakly=weakly, level="L2", layers=[0, 0, 0, 1])]
         out += [dict(system=system, N=2, M=2, pm=pm, weakly=weakly, shapes=sh)
                 for sh in ops.const_shape_configs(weakly) + ops.struct_shape_configs() for pm in ("rc2", "z3")]
         out += [dict(system=system, N=2, M=3, pm="rc2-m22", weakly=weakly, level="L2")]
+        dup = {("A", 1): "same_as_0", ("B", 1): "same_as_0"}
+        out += [dict(system=system, N=3, M=3, pm=pm, weakly=weakly, shapes=dup) for pm in ("rc2", "z3")]
+        out += [dict(system=system, N=3, M=4, pm="z3", weakly=weakly, shapes=dup, layers=[0, 0, 0, 0])]
     return out
 
 
